@@ -1,5 +1,6 @@
 import HcipyVerif.Lemmas.OpIR
 import HcipyVerif.Lemmas.Effects
+import HcipyVerif.Lemmas.EffectLoops
 import HcipyVerif.Model.Elements
 import Mathlib.Data.Complex.Basic
 import Mathlib.Algebra.Order.Field.Rat
@@ -10,30 +11,43 @@ import Mathlib.Tactic.NormNum
 # C06 — every optical element is a linear (fibre injection: conjugate-linear), repeatable map that
 leaves its input intact
 
-Two models, tied to the code by harness/props/c06.py:
+Three models, tied to the code by harness/props/c06.py:
 
 * `OpIR.Term` / `denote` — what an element computes.  `denote_linear`, `conj_linear`: **every** term
   with a definite parity is linear / conjugate-linear, over any commutative ring with a ring
   involution `cj` (instantiated at `ℂ` by `isConj_complex`); vectors are lists of any length.
-  The family schemas of `Model/Elements.lean` have the parity the property asks for, for all
-  parameter values (`*_parity`), hence are (conjugate-)linear (`family_linear`, `family_conj_linear`).
+  The terms are built in Lean by `Elements.familyTerm` from the parameters the harness reads off the
+  element (driver op `C06 denote-family`); `family_parity`: every term of the table has the parity
+  its family declares, hence is (conjugate-)linear (`family_semilinear`), also as executed at the
+  driver's dyadic scalars (`family_semilinear_executed`) and applied component by component to a
+  polarised field (`denoteBlocks`, `family_semilinear_blocks`, op `C06 denote-family-blocks`).
 * `Effects.Prog` / `call` — what a call does to the objects it is given.  `safe_sound`: a program
   accepted by the static checker returns with the input wavefront's field *and* attributes exactly
   as they were, for every input value and every meaning of the array operations; `repeatable`:
-  calling again (on what the first call left behind) gives the same result. Every shipped effect
-  program is accepted (`shipped_programs_safe`); the pinned tree's
+  calling again (on what the first call left behind) gives the same result.  Grid and Stokes vector
+  are heap objects of their own (`viewProg`, `safeAttr`, `safe_sound_attr`): several wavefronts may
+  point to one grid, and an in-place update through any of them is rejected
+  (`scaleSharedGridOld_*`, `copy_shares_grid_rejected`, `stokesInplaceOld_*`).  Every shipped effect
+  program is accepted on all three heaps (`shipped_programs_safeAll`), the programs with a loop
+  over scales / layers for every number of rounds (`shipped_loop_programs_safeAll`); the pinned tree's
   `VectorVortexCoronagraph.backward` is rejected and provably leaves `wavelength = 1`
-  (`vvcBwdScalarOld_clobbers_wavelength`).
+  (`vvcBwdScalarOld_clobbers_wavelength`).  The driver op `C06 effects` runs `call` and the
+  checkers; the harness compares identity / sharing of the result, the ordered trace of what is done
+  to the input object and the number of wavefront objects created with the running code.
+* `Effects.IProg` / `callI` / `runHistory` — what a call keeps inside the element
+  (`history_independent`); driver op `C06 history` replays the harness's call / parameter-change
+  histories and its hit / miss predictions are compared with observed recomputations.
 
-Not modelled: eviction from the instance cache and hash collisions (C05), the Python
-object model beyond the instruction set of `Effects.Instr`, rounding.
+Not modelled: hash collisions of the instance cache (C05), the Python object model beyond the
+instruction set of `Effects.Instr`, rounding.  `chain` stands for compositions of arbitrary parts
+(no frame theorem for sequential composition of calls).
 -/
 set_option linter.unusedSimpArgs false
 set_option linter.unusedVariables false
 set_option linter.unusedSectionVars false
 
 namespace HcipyVerif.C06
-open HcipyVerif.OpIR HcipyVerif.Effects HcipyVerif.Elements
+open HcipyVerif.OpIR HcipyVerif.OpIR.Old HcipyVerif.Effects HcipyVerif.Elements
 
 section Linear
 variable {K : Type} [CommRing K] {cj : K → K}
@@ -68,7 +82,12 @@ theorem denote_length (t : Term K) (x y : List K) (h : x.length = y.length) :
     (denote cj t x).length = (denote cj t y).length :=
   denote_length_congr cj t x y h
 
+end Linear
+
 /-! ### The family schemas have the parity the property requires, whatever their parameters -/
+section Parity
+variable {K : Type}
+
 
 theorem pointwise_parity (m : List K) : parity (pointwise m) = some false := rfl
 theorem dense_parity (A : List (List K)) : parity (dense A) = some false := rfl
@@ -82,8 +101,18 @@ theorem lyotBackward_parity (stop : List K) (Pb : List (List K)) (m1 : List K) (
     parity (lyotBackward stop Pb m1 Pf) = some false := rfl
 theorem sandwich_parity (Pb : List (List K)) (m : List K) (Pf : List (List K)) :
     parity (sandwich Pb m Pf) = some false := rfl
-theorem fibreNuller_parity (rows P : List (List K)) (apod : List K) :
-    parity (fibreNuller rows P apod) = some true := rfl
+theorem optMul_parity (o : Option (List K)) : parity (optMul o) = some false := by
+  cases o <;> rfl
+theorem fibreNuller_parity (rows P : List (List K)) (apod : Option (List K)) :
+    parity (fibreNuller rows P apod) = some true := by
+  simp [fibreNuller, fibreForward, parity, optMul_parity]
+theorem fibreNullerBackward_parity (apod : Option (List K)) (Pb B : List (List K)) :
+    parity (fibreNullerBackward apod Pb B) = some false := by
+  simp [fibreNullerBackward, fibreBackward, parity, optMul_parity]
+theorem fibreModes_parity (Mc Mh : List (List K)) (ph w : List K) :
+    parity (fibreModes Mc ph Mh w) = some false := rfl
+theorem lyotCore_parity (Pb : List (List K)) (m1 : List K) (Pf : List (List K)) :
+    parity (lyotCore Pb m1 Pf) = some false := rfl
 
 theorem multiscale_parity (F0 : List (List K)) (levels : List (List (List K) × List K × List (List K))) :
     parity (multiscale F0 levels) = some false := by
@@ -92,6 +121,16 @@ theorem multiscale_parity (F0 : List (List K)) (levels : List (List (List K) × 
   | cons l rest ih =>
     obtain ⟨Pb, m, Pf⟩ := l
     simp [multiscale, parity, ih, sandwich]
+
+theorem multiscaleForward_parity (stop : Option (List K)) (F0 : List (List K))
+    (levels : List (List (List K) × List K × List (List K))) :
+    parity (multiscaleForward stop F0 levels) = some false := by
+  simp [multiscaleForward, parity, optMul_parity, multiscale_parity]
+
+theorem multiscaleBackward_parity (stop : Option (List K)) (F0 : List (List K))
+    (levels : List (List (List K) × List K × List (List K))) :
+    parity (multiscaleBackward stop F0 levels) = some false := by
+  simp [multiscaleBackward, parity, optMul_parity, multiscale_parity]
 
 /-- An optical system of linear parts is linear; each conjugate-linear part flips the parity. -/
 theorem system_parity_linear (ts : List (Term K)) (h : ∀ t ∈ ts, parity t = some false) :
@@ -103,37 +142,148 @@ theorem system_parity_linear (ts : List (Term K)) (h : ∀ t ∈ ts, parity t = 
     have h2 := ih (fun u hu => h u (by simp [hu]))
     simp [system, parity, h1, h2]
 
-/-- Hence: every linear family is linear … -/
-theorem family_linear (hc : IsConj cj) (a : K) (x y : List K) (h : x.length = y.length)
-    (stop m1 m c apod : List K) (Pb Pf T Ti A F0 : List (List K))
-    (levels : List (List (List K) × List K × List (List K))) :
-    ∀ t ∈ [pointwise m, dense A, fibreBackward A, projection T c Ti, lyotForward stop Pb m1 Pf,
-            lyotBackward stop Pb m1 Pf, sandwich Pb m Pf, multiscale F0 levels],
-      denote cj t (vadd (smul a x) y) = vadd (smul a (denote cj t x)) (denote cj t y) := by
+theorem systemDense_parity (parts : List (List (List K))) : parity (systemDense parts) = some false := by
+  apply system_parity_linear
   intro t ht
-  apply denote_linear hc t _ a x y h
-  simp only [List.mem_cons, List.mem_nil_iff, or_false] at ht
-  rcases ht with rfl | rfl | rfl | rfl | rfl | rfl | rfl | rfl
-  · rfl
-  · rfl
-  · rfl
-  · rfl
-  · rfl
-  · rfl
-  · rfl
-  · exact multiscale_parity F0 levels
+  simp only [List.mem_map] at ht
+  obtain ⟨A, _, rfl⟩ := ht
+  rfl
+
+/-- **Every term the driver op `C06 denote-family` can build has the parity its family declares**
+(`Family.conj`: conjugate-linear for fibre injection and the nullers' forward, linear for the rest) —
+for every family of the table, every number, size and value of the arguments (any number of
+multi-scale levels, any number of system parts, with or without stop / apodizer). -/
+theorem family_parity (f : Family) (args : List (Arg K)) (t : Term K) (h : familyTerm f args = some t) :
+    parity t = some f.conj := by
+  unfold familyTerm at h
+  split at h
+  all_goals first
+    | (cases h; rfl)
+    | (simp at h)
+    | skip
+  · -- multiscaleForward
+    split at h
+    · cases h; exact multiscaleForward_parity _ _ _
+    · simp at h
+  · split at h
+    · cases h; exact multiscaleBackward_parity _ _ _
+    · simp at h
+  · split at h
+    · cases h; exact systemDense_parity _
+    · simp at h
+  · split at h
+    · cases h; exact fibreNuller_parity _ _ _
+    · simp at h
+  · split at h
+    · cases h; exact fibreNullerBackward_parity _ _ _
+    · simp at h
+
+end Parity
+
+section FamilyLinear
+variable {K : Type} [CommRing K] {cj : K → K}
+
+/-- **Hence every family is (conjugate-)linear as executed**: for the term `t` that `familyTerm`
+builds — the very term the driver evaluates and the harness compares with the element's output on
+`E1`, `E2` and `a·E1+E2` — `denote t (a•x + y) = a'•denote t x + denote t y` with `a' = a`, or
+`a' = conj a` exactly for the families in which the code conjugates the field. -/
+theorem family_semilinear (hc : IsConj cj) (f : Family) (args : List (Arg K)) (t : Term K)
+    (h : familyTerm f args = some t) (a : K) (x y : List K) (hl : x.length = y.length) :
+    denote cj t (vadd (smul a x) y)
+      = vadd (smul (if f.conj then cj a else a) (denote cj t x)) (denote cj t y) :=
+  denote_semilinear_all hc t f.conj (family_parity f args t h) a x y hl
+
+/-- the linear families … -/
+theorem family_linear (hc : IsConj cj) (f : Family) (hf : f.conj = false) (args : List (Arg K)) (t : Term K)
+    (h : familyTerm f args = some t) (a : K) (x y : List K) (hl : x.length = y.length) :
+    denote cj t (vadd (smul a x) y) = vadd (smul a (denote cj t x)) (denote cj t y) := by
+  have := family_semilinear hc f args t h a x y hl
+  simpa [hf] using this
 
 /-- … and fibre injection (alone or behind an apodizer and a propagator) is conjugate-linear. -/
-theorem family_conj_linear (hc : IsConj cj) (a : K) (x y : List K) (h : x.length = y.length)
-    (apod : List K) (rows P : List (List K)) :
-    ∀ t ∈ [fibreForward rows, fibreNuller rows P apod],
-      denote cj t (vadd (smul a x) y) = vadd (smul (cj a) (denote cj t x)) (denote cj t y) := by
-  intro t ht
-  apply conj_linear hc t _ a x y h
-  simp only [List.mem_cons, List.mem_nil_iff, or_false] at ht
-  rcases ht with rfl | rfl <;> rfl
+theorem family_conj_linear (hc : IsConj cj) (f : Family) (hf : f.conj = true) (args : List (Arg K)) (t : Term K)
+    (h : familyTerm f args = some t) (a : K) (x y : List K) (hl : x.length = y.length) :
+    denote cj t (vadd (smul a x) y) = vadd (smul (cj a) (denote cj t x)) (denote cj t y) := by
+  have := family_semilinear hc f args t h a x y hl
+  simpa [hf] using this
 
-end Linear
+/-- **Polarised fields** (Jones-vector field: 2 components, Jones-matrix field: 4, stored one after
+the other): the elements without polarisation optics apply the family's term to every component
+(`OpIR.denoteBlocks`, what the driver op `C06 denote-family-blocks` evaluates and the harness compares
+with the element's output on vector and tensor wavefronts) — and that is (conjugate-)linear on the
+whole field, for any number `r` of components of any length `n`. -/
+theorem family_semilinear_blocks (hc : IsConj cj) (f : Family) (args : List (Arg K)) (t : Term K)
+    (h : familyTerm f args = some t) (n r : Nat) (a : K) (x y : List K) (hl : x.length = y.length) :
+    denoteBlocks cj t n r (vadd (smul a x) y)
+      = vadd (smul (if f.conj then cj a else a) (denoteBlocks cj t n r x)) (denoteBlocks cj t n r y) := by
+  have := denoteBlocks_semilinear hc t f.conj (family_parity f args t h) n a r x y hl
+  simpa [lincomb, twist] using this
+
+example : denoteBlocks (fun a : ℤ => a) (.mulField [2, 3]) 2 2 [1, 1, 10, 10] = [2, 3, 20, 30] := by decide
+
+/-- the hypotheses are satisfiable: each family accepts some argument list (here: three multi-scale
+levels' worth of empty matrices, a two-part system, a nuller without apodizer). -/
+example : ∃ t : Term ℤ, familyTerm .multiscaleForward [.none, .mat [], .mat [], .vec [], .mat []] = some t := ⟨_, rfl⟩
+example : ∃ t : Term ℤ, familyTerm .system [.mat [[1]], .mat [[2]]] = some t := ⟨_, rfl⟩
+example : ∃ t : Term ℤ, familyTerm .fibreNuller [.mat [[1]], .mat [[1]], .none] = some t := ⟨_, rfl⟩
+example : ∀ f : Family, ∃ args : List (Arg ℤ), (familyTerm f args).isSome = true := by
+  intro f
+  cases f
+  · exact ⟨[.vec []], rfl⟩
+  · exact ⟨[.mat []], rfl⟩
+  · exact ⟨[.mat []], rfl⟩
+  · exact ⟨[.mat []], rfl⟩
+  · exact ⟨[.mat [], .vec [], .mat []], rfl⟩
+  · exact ⟨[.mat [], .vec [], .mat []], rfl⟩
+  · exact ⟨[.vec [], .mat [], .vec [], .mat []], rfl⟩
+  · exact ⟨[.vec [], .mat [], .vec [], .mat []], rfl⟩
+  · exact ⟨[.mat [], .vec [], .mat []], rfl⟩
+  · exact ⟨[.none, .mat []], rfl⟩
+  · exact ⟨[.none, .mat []], rfl⟩
+  · exact ⟨[], rfl⟩
+  · exact ⟨[.mat [], .mat [], .none], rfl⟩
+  · exact ⟨[.none, .mat [], .mat []], rfl⟩
+  · exact ⟨[.mat [], .vec [], .mat [], .vec []], rfl⟩
+
+end FamilyLinear
+
+/-- **What the driver prints is a (conjugate-)linear map over ℂ.**  The driver evaluates
+`denote CDy.conj t` on Gaussian dyadic rationals (`OpIR.CDy`, the exact values of the floats the
+code computes with).  Read as complex numbers (`CDy.toComplex`), the outputs on `x`, `y` and
+`a•x + y` of every term `t` that `familyTerm` builds satisfy the (conjugate-)linearity equation —
+this is the statement about the executed definition, without any ring structure assumed on `CDy`
+(`Lemmas/OpIR.lean: denote_map`, `CDy.scalarHom`, `Dy.toRat_add/_sub/_mul`). -/
+theorem family_semilinear_executed (f : Family) (args : List (Arg CDy)) (t : Term CDy)
+    (h : familyTerm f args = some t) (a : CDy) (x y : List CDy) (hl : x.length = y.length) :
+    (denote CDy.conj t (vadd (smul a x) y)).map CDy.toComplex
+      = vadd (smul (if f.conj then (starRingEnd ℂ) a.toComplex else a.toComplex)
+                ((denote CDy.conj t x).map CDy.toComplex))
+             ((denote CDy.conj t y).map CDy.toComplex) := by
+  have hp : parity (t.map CDy.toComplex) = some f.conj := by
+    rw [parity_map]; exact family_parity f args t h
+  rw [denote_map CDy.scalarHom, denote_map CDy.scalarHom, denote_map CDy.scalarHom,
+    map_vadd CDy.scalarHom, map_smul CDy.scalarHom]
+  exact denote_semilinear_all ⟨fun a b => map_add _ a b, fun a b => map_mul _ a b, fun a => Complex.conj_conj a⟩
+    (t.map CDy.toComplex) f.conj hp a.toComplex (x.map CDy.toComplex) (y.map CDy.toComplex) (by simpa using hl)
+
+/-- The same for what `C06 denote-family-blocks` prints (component-wise application, run at `CDy`). -/
+theorem family_semilinear_blocks_executed (f : Family) (args : List (Arg CDy)) (t : Term CDy)
+    (h : familyTerm f args = some t) (n r : Nat) (a : CDy) (x y : List CDy) (hl : x.length = y.length) :
+    (denoteBlocks CDy.conj t n r (vadd (smul a x) y)).map CDy.toComplex
+      = vadd (smul (if f.conj then (starRingEnd ℂ) a.toComplex else a.toComplex)
+                ((denoteBlocks CDy.conj t n r x).map CDy.toComplex))
+             ((denoteBlocks CDy.conj t n r y).map CDy.toComplex) := by
+  have hp : parity (t.map CDy.toComplex) = some f.conj := by
+    rw [parity_map]; exact family_parity f args t h
+  rw [denoteBlocks_map CDy.scalarHom, denoteBlocks_map CDy.scalarHom, denoteBlocks_map CDy.scalarHom,
+    map_vadd CDy.scalarHom, map_smul CDy.scalarHom]
+  have := denoteBlocks_semilinear (cj := starRingEnd ℂ)
+    ⟨fun a b => map_add _ a b, fun a b => map_mul _ a b, fun a => Complex.conj_conj a⟩
+    (t.map CDy.toComplex) f.conj hp n a.toComplex r (x.map CDy.toComplex) (y.map CDy.toComplex) (by simpa using hl)
+  simpa [lincomb, twist] using this
+
+example : ∃ (t : Term CDy), familyTerm .lyotCore [.mat [[⟨⟨1, 0⟩, ⟨0, 0⟩⟩]], .vec [⟨⟨1, 1⟩, ⟨0, 0⟩⟩], .mat [[⟨⟨3, 2⟩, ⟨1, 0⟩⟩]]] = some t :=
+  ⟨_, rfl⟩
 
 /-- The hypothesis `IsConj` is satisfiable where it matters: complex conjugation. -/
 theorem isConj_complex : IsConj (starRingEnd ℂ) :=
@@ -152,7 +302,9 @@ theorem mixed_not_linear :
 
 The class of defect "keep only the modes / pixels / components that carry more than a fraction θ of
 *this* input's power": `f(a·E) = a·f(E)` holds for every `a ≠ 0`, so single-input and
-comparable-magnitude tests pass, yet a faint component riding on a bright one is dropped. -/
+comparable-magnitude tests pass, yet a faint component riding on a bright one is dropped.
+(`OpIR.Old.keepExcited`: a defect class — seeded C06-2 —, not code of /repo; these two theorems
+explain the harness's wide-magnitude additivity probe and are not evidence about hcipy.) -/
 
 /-- Threshold selection relative to the input's own power commutes with every non-zero factor … -/
 theorem keepExcited_homogeneous (θ a : Rat) (ha : a ≠ 0) (x : List Rat) :
@@ -220,6 +372,99 @@ theorem shipped_programs_safe : ∀ np ∈ programs, safe np.2 = true := by deci
 
 example : safe copyInplace = true := by decide
 example : safe multiscaleFwd = true := by decide
+
+/-! ### Grid and Stokes vector as heap objects
+
+`Effects.viewProg a p` is what program `p` does on the heap of the objects attached as attribute `a`
+(grid objects / Stokes vectors): `wavefront.copy()` and `Wavefront(…)` constructions share the grid
+object and copy the Stokes vector, `inplaceAttr` updates one in place.  The same checker runs on the view. -/
+
+/-- **A program whose views are accepted leaves the caller's grid and Stokes vector *contents*
+intact**, whatever they were (`g`), for every meaning of the operations — although other wavefronts
+created during the call may point to the very same grid object. -/
+theorem safe_sound_attr (sem : Nat → List Int → Int) (a : Attr) (p : Prog) (hs : safeAttr a p = true)
+    (v : InVal) (g : Int) : attrContentsAfter sem a p v g = some g := by
+  unfold safeAttr at hs
+  unfold attrContentsAfter
+  cases hq : viewProg a p with
+  | none => simp [hq] at hs
+  | some q =>
+    simp only [hq] at hs ⊢
+    exact congrArg some (safe_sound sem q hs { v with field := g }).1
+
+/-- all three heaps at once: field values, wavelength / pointers, grid contents, Stokes contents. -/
+theorem safeAll_sound (sem : Nat → List Int → Int) (p : Prog) (hs : safeAll p = true) (v : InVal) (g st : Int) :
+    (call sem p v).inputField = v.field ∧ (call sem p v).inputObj = v.obj ∧
+      attrContentsAfter sem .grid p v g = some g ∧ attrContentsAfter sem .stokes p v st = some st := by
+  simp only [safeAll, Bool.and_eq_true] at hs
+  obtain ⟨⟨h1, h2⟩, h3⟩ := hs
+  exact ⟨(safe_sound sem p h1 v).1, (safe_sound sem p h1 v).2, safe_sound_attr sem .grid p h2 v g,
+    safe_sound_attr sem .stokes p h3 v st⟩
+
+/-- Every shipped effect program is accepted on all three heaps. -/
+theorem shipped_programs_safeAll : ∀ np ∈ programs, safeAll np.2 = true := by decide
+
+example : safeAll magnifier = true := by decide
+
+/-- The property **can fail** in this model where it could not be expressed before: a result that
+shares the caller's grid object, rescaled in place.  The field-array checker accepts the program … -/
+theorem scaleSharedGridOld_field_safe : safe scaleSharedGridOld = true := by decide
+/-- … the grid view is rejected … -/
+theorem scaleSharedGridOld_rejected : safeAttr .grid scaleSharedGridOld = false := by decide
+/-- … and the caller's grid is indeed rewritten. -/
+theorem scaleSharedGridOld_rewrites_grid (sem : Nat → List Int → Int) (v : InVal) (g : Int) :
+    attrContentsAfter sem .grid scaleSharedGridOld v g = some (sem opMul [g]) := by
+  simp [attrContentsAfter, viewProg, viewList, viewInstr, scaleSharedGridOld, call, exec, step, init, upd, bufOf, contents, InVal.obj]
+
+/-- `wavefront.copy()` does **not** help: the copy points to the same grid object
+(`Field.__array_finalize__`), so rescaling the copy's grid in place is rejected as well … -/
+theorem copy_shares_grid_rejected : safeAttr .grid ⟨[.copy 1 0, .inplaceAttr opMul 1 .grid], 1⟩ = false := by decide
+/-- … what `Magnifier` does — re-point the copy to a *copy of the grid* first (`grid.scaled`) — is accepted. -/
+example : safeAttr .grid ⟨[.copy 1 0, .copyAttr 1 .grid, .inplaceAttr opMul 1 .grid], 1⟩ = true := by decide
+
+/-- In-place arithmetic on the argument's Stokes vector: rejected, and the vector is rewritten. -/
+theorem stokesInplaceOld_rejected : safeAttr .stokes stokesInplaceOld = false := by decide
+theorem stokesInplaceOld_rewrites_stokes (sem : Nat → List Int → Int) (v : InVal) (st : Int) :
+    attrContentsAfter sem .stokes stokesInplaceOld v st = some (sem opMul [st]) := by
+  simp [attrContentsAfter, viewProg, viewList, viewInstr, stokesInplaceOld, call, exec, step, init, upd, bufOf, contents, InVal.obj]
+
+/-- A new wavefront gets a *copy* of the Stokes vector (`np.array(…)` in `Wavefront.__init__`), so
+updating the result's Stokes vector in place is harmless — unlike the grid. -/
+example : safeAttr .stokes ⟨[.newFrom 1 opJones [0] 0, .inplaceAttr opMul 1 .stokes], 1⟩ = true := by decide
+
+/-! ### Loops: any number of scales / layers
+
+`LoopProg.unroll n` is the program with `n` rounds of its loop body (`Model/Elements.lean:
+loopPrograms` — the multi-scale coronagraphs, the vector vortex coronagraph in all its variants, the
+layered atmosphere).  The driver op `C06 effects-loop NAME N` runs the unrolling for the number of
+rounds of the element at hand; the harness compares the object trace and the number of wavefronts
+created exactly. -/
+
+/-- **Every shipped program with a loop is accepted on all three heaps for every number of rounds.**
+(`loop_safeAll`: accepted with zero and one round, and the checker's state after one round is a
+fixpoint of the loop body.) -/
+theorem shipped_loop_programs_safeAll :
+    ∀ np ∈ loopPrograms, ∀ n : Nat, safeAll (np.2.unroll n) = true :=
+  fun np h n => loop_safeAll np.2 (loopPrograms_base np h) (loopPrograms_fix np h) n
+
+/-- Hence, whatever the number of scales / layers: field, attributes, grid contents and Stokes
+contents of the caller's wavefront are intact. -/
+theorem loop_programs_input_intact (sem : Nat → List Int → Int) (np : String × LoopProg) (h : np ∈ loopPrograms)
+    (n : Nat) (v : InVal) (g st : Int) :
+    (call sem (np.2.unroll n) v).inputField = v.field ∧ (call sem (np.2.unroll n) v).inputObj = v.obj ∧
+      attrContentsAfter sem .grid (np.2.unroll n) v g = some g ∧
+      attrContentsAfter sem .stokes (np.2.unroll n) v st = some st :=
+  safeAll_sound sem _ (shipped_loop_programs_safeAll np h n) v g st
+
+example : (multiscaleFwdL.unroll 3).body.length = 17 := by decide
+
+/-- One accepted round is not enough — the fixpoint condition matters: a loop that rebinds its
+working name to the argument at the end of the round is accepted with one round and rejected with two
+(the second round multiplies the caller's field in place). -/
+theorem rebinding_loop_one_round_safe :
+    safe (LoopProg.unroll ⟨[.copy 1 0], [.inplace opMul 1 [], .bind 1 0], [], 1⟩ 1) = true := by decide
+theorem rebinding_loop_two_rounds_rejected :
+    safe (LoopProg.unroll ⟨[.copy 1 0], [.inplace opMul 1 [], .bind 1 0], [], 1⟩ 2) = false := by decide
 
 /-- The checker is not vacuous: dropping the copy before an in-place multiply is rejected … -/
 theorem dropped_copy_unsafe : safe ⟨[.inplace opMul 0 []], 0⟩ = false := by decide
@@ -290,7 +535,7 @@ evaluated at an environment whose key atoms have the stored tag — "every fille
 f(params, key)". -/
 theorem memo_cells_hold_spec (S : ISem) (p : IProg) (hs : safeInternal p = true) (params : Nat → Int)
     (h : List Event) (c : Nat) (tag : List Int) (val : Int)
-    (hc : (runHistory S p (EState.fresh params) h).cells c = some (tag, val)) :
+    (hc : (tag, val) ∈ (runHistory S p (EState.fresh params) h).cells c) :
     ∃ ρ' : Atom → Int, (p.keyAtoms c).map ρ' = tag ∧ val = evalI S ρ' 0 (fun _ => 0) (p.spec c) :=
   runHistory_inv S p hs h _ (memoInv_fresh S p) c tag val hc
 
